@@ -109,11 +109,16 @@ def lin_add(a, b, sign=1):
     return Lin(frozenset((s, c) for s, c in d.items() if c != 0))
 
 
+Snapshot = namedtuple("Snapshot", "fields")  # a local copy of guarded deques: ((field, epoch), ...)
+
+
 class LockDomain(Domain):
     """Tracks, along each path of an ObjectPool method: lock held?, the current hold's epoch, which guarded-field
-    operations happened in which hold, ownership of objects (removed from a deque by this thread)."""
+    operations happened in which hold, ownership of objects (removed from a deque by this thread).  Private helper
+    methods of the pool are inlined, so a helper that is only called with the lock held is analysed in that context."""
 
     async_enabled = False
+    global_keys = ("lock", "epoch", "touched", "closed", "free_empty", "fresh", "silent")
 
     def __init__(self, prog, fn, fields, lock, silent=None):
         super().__init__(prog, fn)
@@ -181,10 +186,6 @@ class LockDomain(Domain):
             self.problems.append(("field-rebound:%s" % node.attr, "guarded field self.%s is rebound" % node.attr, node))
         return super().attr_store(objval, node, value, state)
 
-    def binop(self, node, l, r, state):
-        if isinstance(l, Lin) and isinstance(r, Lin) and isinstance(node.op, (ast.Sub, ast.Add)):
-            return lin_add(l, r, -1 if isinstance(node.op, ast.Sub) else 1)
-        return super().binop(node, l, r, state)
 
     def compare(self, node, op, l, r, state):
         if isinstance(l, Lin) and isinstance(r, Lin) and isinstance(op, (ast.Lt, ast.LtE, ast.Gt, ast.GtE)):
@@ -228,6 +229,11 @@ class LockDomain(Domain):
             return [(Obj("snapshot"), state)]
         if isinstance(itval, Opaque) and itval.tag.startswith("locallist:"):
             return [(Obj("from:" + itval.tag[10:]), state)]
+        if isinstance(itval, Snapshot):
+            st = state
+            if isinstance(node.target, ast.Name):
+                st = st.set(("snap", node.target.id), itval.fields)
+            return [(Obj("from-snapshot"), st)]
         return super().for_next(node, itval, state)
 
     def name_load(self, name, state, node=None):
@@ -266,6 +272,14 @@ class LockDomain(Domain):
                 if isinstance(node.func, ast.Attribute) and node.func.attr == "extend" and isinstance(node.func.value, ast.Name):
                     lst = node.func.value.id
                     st = st.set(("ext", lst), tuple(sorted(set(st.get(("ext", lst), ())) | {(a.tag[6:], st.get("epoch"))})))
+        if name in ("list", "tuple") and args and isinstance(args[0], Opaque) and args[0].tag.startswith("field:"):
+            return [("ok", Snapshot(((args[0].tag[6:], st.get("epoch") if st.get("lock") else -1),)), st)]
+        if name.startswith("self._") and name.count(".") == 1 and name[5:] not in ("_obj_creator", "_after_remove", "_idle_clock") and self.prog is not None:
+            m = self.prog.cls("ObjectPool").methods.get(name[5:])
+            if m is not None:
+                res = self.inline(node, m, args, kwargs, st)
+                if res is not None:
+                    return res
         if name == "self._obj_creator":
             if state.get("free_empty") is not True:
                 self.problems.append(("create-before-reuse", "a new object is created on a path where the free list was not found empty", node))
@@ -308,6 +322,10 @@ class LockDomain(Domain):
                 ext = state.get(("ext", lst), ())
                 owned = bool(ext) and all(state.get(("cleared", f), None) == ep for f, ep in ext)
                 why = "snapshot list `%s` taken from %s, cleared in the same hold: %s" % (lst, [f for f, e in ext], owned)
+            elif v.origin == "from-snapshot":
+                flds = state.get(("snap", nm), ())
+                owned = bool(flds) and all(ep >= 0 and state.get(("cleared", f), None) == ep for f, ep in flds)
+                why = "snapshot of %s taken and cleared in the same lock hold: %s" % ([f for f, e in flds], owned)
             elif v.origin == "param":
                 rm = state.get(("removed", nm), None)
                 owned = rm is not None
@@ -321,7 +339,25 @@ class LockDomain(Domain):
         return TOP, False
 
     def make_list(self, items, node, state):
+        fields = []
+        for it in items:
+            if isinstance(it, Opaque) and it.tag.startswith("field:"):
+                self._touch(it.tag[6:], "read", node, state)
+                fields.append((it.tag[6:], state.get("epoch") if state.get("lock") else -1))
+            elif isinstance(it, Snapshot):
+                fields += list(it.fields)
+            else:
+                return TOP
+        if fields and all(isinstance(e, ast.Starred) for e in node.elts):
+            return Snapshot(tuple(sorted(set(fields))))
         return TOP
+
+    def binop(self, node, l, r, state):
+        if isinstance(l, Snapshot) and isinstance(r, Snapshot) and isinstance(node.op, ast.Add):
+            return Snapshot(tuple(sorted(set(l.fields) | set(r.fields))))
+        if isinstance(l, Lin) and isinstance(r, Lin) and isinstance(node.op, (ast.Sub, ast.Add)):
+            return lin_add(l, r, -1 if isinstance(node.op, ast.Sub) else 1)
+        return super().binop(node, l, r, state)
 
     def name_store(self, name, value, state, node=None):
         # re-binding a variable: facts about the object it named no longer apply to it
